@@ -721,7 +721,7 @@ end
 
 attribute [local instance] exceptDecEq
 
-theorem qsort_singleton {α : Type} (x : α) (lt : α → α → Bool) : (#[x].qsort lt) = #[x] := by
+theorem qsort_singleton_cyc {α : Type} (x : α) (lt : α → α → Bool) : (#[x].qsort lt) = #[x] := by
   unfold Array.qsort
   simp
   unfold Array.qsort.sort
@@ -733,32 +733,32 @@ def extOf' (base : String) : String :=
   | e :: _ :: _ => e
   | _ => ""
 
-theorem extOf_eq : extOf = extOf' := by
+theorem extOf_eq_cyc : extOf = extOf' := by
   funext base; unfold extOf extOf'; rw [splitOn_dot]; rfl
 
 /-- `splitPath` with the split done on characters (kernel-computable) -/
 def splitPath' (p : String) : List String :=
   ((List.splitOnP (· == '/') p.toList).map String.ofList).filter (· != "")
 
-theorem splitPath_eq : splitPath = splitPath' := by
+theorem splitPath_eq_cyc : splitPath = splitPath' := by
   funext p; unfold splitPath splitPath'
   rw [show "/" = String.ofList ['/'] from rfl, splitOn_char]
 
 /-- the names `globFiles` selects, before sorting -/
-def globNames (fs : FS) (rdir : Comps) (base : String) : List String :=
+def globNames_cyc (fs : FS) (rdir : Comps) (base : String) : List String :=
   ((fs.entries.filter (fun e => e.1.dropLast == rdir && !e.1.isEmpty)).map
       (fun e => baseOf e.1)).filter
     fun n => globMatch (base ++ ".*").toList n.toList ((base ++ ".*").length + n.length + 1)
       && countDots n == countDots (base ++ ".*") && supportedExts.contains (extOf' n)
 
-theorem globFiles_eq (fs : FS) (dir : Comps) (base : String) :
+theorem globFiles_eq_cyc (fs : FS) (dir : Comps) (base : String) :
     fs.globFiles dir base =
       match fs.evalSymlinks dir with
       | none => []
       | some rdir =>
-        ((globNames fs rdir base).toArray.qsort (· < ·)).toList.map fun n => dir ++ [n] := by
-  unfold FS.globFiles globNames
-  rw [extOf_eq]; rfl
+        ((globNames_cyc fs rdir base).toArray.qsort (· < ·)).toList.map fun n => dir ++ [n] := by
+  unfold FS.globFiles globNames_cyc
+  rw [extOf_eq_cyc]; rfl
 
 /-- two files naming each other in `$parent`: `/w/p.yaml` ⇄ `/w/q.yaml` -/
 def fsPQ : FS := { entries := [
@@ -771,25 +771,25 @@ def cfgPQ : RootCfg := { root := [], cwd := ["w"] }
 theorem fsPQ_glob (x : String) (hx : x = "p" ∨ x = "q") :
     fsPQ.globFiles ["w"] x = [["w", x ++ ".yaml"]] := by
   have h1 : fsPQ.evalSymlinks ["w"] = some ["w"] := by decide
-  rw [globFiles_eq, h1]
-  have h2 : globNames fsPQ ["w"] x = [x ++ ".yaml"] := by
+  rw [globFiles_eq_cyc, h1]
+  have h2 : globNames_cyc fsPQ ["w"] x = [x ++ ".yaml"] := by
     rcases hx with rfl | rfl <;> decide
   simp only []
   rw [h2]
   show ((#[x ++ ".yaml"].qsort _).toList.map _) = _
-  rw [qsort_singleton]
+  rw [qsort_singleton_cyc]
   rfl
 
 theorem fsPQ_load_p (fid : String) :
     loadFile fsPQ cfgPQ ["w", "p.yaml"] fid = .ok [.map [("$parent", .str "q")]] := by
   unfold loadFile
-  rw [extOf_eq]
+  rw [extOf_eq_cyc]
   decide
 
 theorem fsPQ_load_q (fid : String) :
     loadFile fsPQ cfgPQ ["w", "q.yaml"] fid = .ok [.map [("$parent", .str "p")]] := by
   unfold loadFile
-  rw [extOf_eq]
+  rw [extOf_eq_cyc]
   decide
 
 theorem fsPQ_parents (x y : String) (hx : x = "p" ∨ x = "q") (hy : y = "p" ∨ y = "q") :
@@ -798,7 +798,7 @@ theorem fsPQ_parents (x y : String) (hx : x = "p" ∨ x = "q") (hy : y = "p" ∨
   unfold fileParents
   have hm : List.mapM parentDirective [Val.map [("$parent", Val.str y)]] =
       .ok [ParentDir.names [y]] := rfl
-  rw [hm, splitPath_eq]
+  rw [hm, splitPath_eq_cyc]
   simp only [e_ok_bind, List.any_cons, List.any_nil, Bool.or_false, List.flatMap_cons,
     List.flatMap_nil, List.append_nil, List.isEmpty_cons, Bool.not_false, if_true,
     Bool.false_eq_true, if_false, List.foldlM_cons, List.foldlM_nil]
